@@ -266,6 +266,57 @@ class TupleChoice(Node):
         return TupleChoice(self.tuples)
 
 
+class KChoice(Node):
+    """Uniform over user objects K(v): a distribution over objects (attribute access, method calls lifted)"""
+
+    def __init__(self, vals):
+        super().__init__()
+        self.vals = vals
+
+    def is_random(self):
+        return True
+
+    def expr(self):
+        return "Uniform(" + ", ".join(f"K({v})" for v in self.vals) + ")"
+
+    def _ev(self, env):
+        n = len(self.vals)
+        for v in self.vals:
+            yield ("K", v), Fraction(1, n), env
+
+
+class KAttr(Node):
+    def __init__(self, base):
+        super().__init__()
+        self.base = base
+
+    def children(self):
+        return [self.base]
+
+    def expr(self):
+        return f"{self.base.src()}.v"
+
+    def _ev(self, env):
+        for v, p, e in self.base.ev(env):
+            yield (REJECT if v is REJECT else v[1]), p, e
+
+
+class KMethod(Node):
+    def __init__(self, base, arg):
+        super().__init__()
+        self.base, self.arg = base, arg
+
+    def children(self):
+        return [self.base, self.arg]
+
+    def expr(self):
+        return f"{self.base.src()}.m({self.arg.src()})"
+
+    def _ev(self, env):
+        for vs, p, e in _ev_seq([self.base, self.arg], env):
+            yield (REJECT if vs is REJECT else vs[0][1] * 2 + vs[1]), p, e
+
+
 class Index(Node):
     def __init__(self, base, idx):
         super().__init__()
@@ -396,6 +447,7 @@ class BoolOp(Node):
 
 PRELUDE = """
 from scenic.core.distributions import distributionFunction
+from verif_script import K
 @distributionFunction
 def fmax(a, b):
     return max(a, b)
@@ -541,6 +593,7 @@ def generate(rng, with_objects=None):
     names = itertools.count()
     ints = []  # int-valued nodes bound to names
     tuples = []  # tuple-valued random nodes bound to names
+    kobjs = []  # object-valued random nodes bound to names
     feats = set()
 
     def fresh():
@@ -648,6 +701,13 @@ def generate(rng, with_objects=None):
             if cands:
                 feats.add("resample")
                 return Resample(rng.choice(cands))
+        if kobjs and rng.random() < 0.5:
+            k = rng.choice(kobjs)
+            if rng.random() < 0.5:
+                feats.add("attribute-access")
+                return KAttr(k)
+            feats.add("method-call-random-arg")
+            return KMethod(k, int_operand(depth - 1))
         if tuples:
             t = rng.choice(tuples)
             minlen = min(len(x) for x in t.tuples)
@@ -672,6 +732,9 @@ def generate(rng, with_objects=None):
         )
         tuples.append(bind(tc))
         feats.add("container-distribution")
+    if rng.random() < 0.35:
+        kobjs.append(bind(KChoice(rng.sample(range(0, 5), rng.randint(2, 3)))))
+        feats.add("object-distribution")
     for _ in range(nvars):
         ints.append(bind(int_expr(2)))
 
